@@ -82,7 +82,7 @@ def runCase : CaseFn := fun c => Id.run do
         lastOp := none
       | some d =>
         if !dumpOk cap d then
-          out := out.push s!"ORACLE-FAIL C16 case {c.num} line {ln}: resident-set invariant broken: {obs}"
+          out := out.push s!"ORACLE-FAIL C16 case {c.num} line {ln}: shape={dumpShape cap d} resident-set invariant broken (capacity {cap}): {obs}"
         if kind == "seq" then
           match prevDump, lastOp with
           | some d1, some (o, r, txt) =>
@@ -129,7 +129,8 @@ def runCase : CaseFn := fun c => Id.run do
       | none => out := out.push s!"DIFF C16 case {c.num} line {ln}: unparsable op <{op}>"
       | some o =>
         if obs == "HANG" then
-          out := out.push s!"ORACLE-FAIL C16 case {c.num} line {ln}: call never returned: {op}"
+          -- a watchdog observation (2 s): the shape's name makes bin/check keep it only if a second run shows it again
+          out := out.push s!"ORACLE-FAIL C16 case {c.num} line {ln}: shape=call-hang call never returned: {op}"
         match o with
         | .poison v => bad := v :: bad
         | .heal v => bad := bad.filter (· != v)
